@@ -192,6 +192,7 @@ type c18File struct {
 	Old       string
 	New       string // complete new contents ("" for unparseable files)
 	Parseable bool
+	Link      bool // the journal path is a symbolic link to real/<name>
 }
 
 type c18Scenario struct {
@@ -234,7 +235,13 @@ func runC18(c *core.Ctx, knut, root string, sc c18Scenario) map[string]any {
 	defer os.RemoveAll(dir)
 	var names []string
 	for _, f := range sc.Files {
-		os.WriteFile(filepath.Join(dir, f.Name), []byte(f.Old), 0o644)
+		if f.Link {
+			os.MkdirAll(filepath.Join(dir, "real"), 0o755)
+			os.WriteFile(filepath.Join(dir, "real", f.Name), []byte(f.Old), 0o644)
+			os.Symlink(filepath.Join("real", f.Name), filepath.Join(dir, f.Name))
+		} else {
+			os.WriteFile(filepath.Join(dir, f.Name), []byte(f.Old), 0o644)
+		}
 		names = append(names, f.Name)
 	}
 	train := "2020-01-01 open Equity:Equity\n2020-01-01 open Expenses:Food\n\n2020-01-02 \"entry groceries\"\nEquity:Equity Expenses:Food 3 CHF\n"
@@ -273,6 +280,12 @@ func runC18(c *core.Ctx, knut, root string, sc c18Scenario) map[string]any {
 		}
 		if f.Parseable && f.Old == f.New && final == "Old" {
 			final = "New"
+		}
+		if f.Link { // what the link pointed to must be complete too (old, or new if the command writes through the link)
+			real, err := os.ReadFile(filepath.Join(dir, "real", f.Name))
+			if err != nil || !(bytes.Equal(real, []byte(f.Old)) || f.Parseable && bytes.Equal(real, []byte(f.New))) {
+				final = "Other"
+			}
 		}
 		tempLeft := false
 		for _, e := range ents {
@@ -381,6 +394,12 @@ func C18(c *core.Ctx) {
 		cmd   string
 		files []c18File
 	}{{"format", []c18File{single}}, {"format", multi}, {"infer", []c18File{inf}}}
+	// the same journals reached through symbolic links
+	linked := func(f c18File, name string) c18File { f.Name, f.Link = name, true; return f }
+	groups = append(groups, groups[0], groups[2], groups[1])
+	groups[3].files = []c18File{linked(single, "la.knut")}
+	groups[4].files = []c18File{linked(inf, "lt.knut")}
+	groups[5].files = []c18File{multi[0], multi[1], linked(multi[2], "lsmall.knut"), multi[3]}
 	for _, g := range groups {
 		add(g.cmd, g.files, "", -1, "no fault")
 		// every byte offset (quick: a stride) via the file-size limit
